@@ -347,6 +347,83 @@ func (w *world) gossipRoute() {
 	}
 }
 
+// housekeepingDuring: the routing table's housekeeping (Clean: expiry, per-prefix trimming, re-sorting) runs on
+// its own timer, i.e. concurrently with links coming and going. Node i holds a few thousand gossip routes via one
+// of its live peers (so that a cleaning pass takes long enough to overlap anything), a goroutine cleans the table
+// over and over, and meanwhile a link of node i is set up or closed. The registry/route invariants are checked at
+// the following quiescent point as after any other event.
+func (w *world) housekeepingDuring(i, j int) {
+	n := w.nodes[i]
+	ll := w.liveLinks(n)
+	if len(ll) == 0 {
+		w.connect(i, j)
+		if w.fail || !w.quiesce() {
+			return
+		}
+		ll = w.liveLinks(n)
+		if len(ll) == 0 {
+			return
+		}
+	}
+	via := ll[w.r.IntN(len(ll))]
+	viaIP := w.nodes[via.peer].id.IP
+	tbl := n.r.Inst.RoutingTable()
+	for k := 0; k < 4000; k++ {
+		var a [16]byte
+		copy(a[:], core.RandBytes(w.r, 16))
+		a[0], a[1] = 0xfd, byte(0x10+w.r.IntN(0x60))
+		dst := netip.AddrFrom16(a)
+		_, _ = tbl.AddRoute(m.RoutingTableEntry{
+			DstIP: dst, NextHop: viaIP, Source: m.RouteSourceGossip, Expires: time.Now().Add(time.Hour),
+			Path: m.SwitchPath{Hops: []m.SwitchHop{
+				{Router: n.id.IP, ForwardLabel: via.link.SwitchLabel()},
+				{Router: viaIP, ForwardLabel: 77, ReturnLabel: 78, Delay: 3},
+				{Router: dst, ReturnLabel: 79, Delay: 4},
+			}},
+		})
+	}
+	w.res.Count("housekeeping_table_entries", int64(len(tbl.VerifEntries())))
+	var stop atomic.Bool
+	var wg sync.WaitGroup
+	wg.Add(1)
+	cleans := 0
+	go func() {
+		defer wg.Done()
+		for !stop.Load() {
+			tbl.Clean()
+			cleans++
+		}
+	}()
+	time.Sleep(time.Duration(200+w.r.IntN(800)) * time.Microsecond)
+	// the link event that overlaps the cleaning: a new link of node i, or one of its links goes away
+	others := []int{}
+	for k := range w.nodes {
+		if k != i {
+			others = append(others, k)
+		}
+	}
+	k := others[w.r.IntN(len(others))]
+	if w.r.IntN(3) > 0 {
+		w.trace = append(w.trace, fmt.Sprintf("table-housekeeping(%d)-during:", i))
+		w.connect(i, k)
+	} else {
+		victim := ll[w.r.IntN(len(ll))]
+		w.trace = append(w.trace, fmt.Sprintf("table-housekeeping(%d)-during-close-local(%d: link to %d)", i, i, victim.peer))
+		for _, o := range w.nodes[victim.peer].links {
+			if o.w == victim.w {
+				o.closed = true
+			}
+		}
+		victim.closed = true
+		victim.link.Close(nil)
+	}
+	time.Sleep(time.Duration(200+w.r.IntN(800)) * time.Microsecond)
+	stop.Store(true)
+	wg.Wait()
+	w.res.Count("housekeeping_passes_during_link_events", int64(cleans))
+	w.res.Count("link_events_during_housekeeping", 1)
+}
+
 // closeDuringConnect: the manager closes the link to one peer while a connection to another peer is being set up.
 func (w *world) closeDuringConnect(i, j int) {
 	n := w.nodes[i]
@@ -652,8 +729,11 @@ func runSequence(res *core.Result, r *rand.Rand, ids []*m.Address, keyPrefix str
 		case k < 82:
 			w.gossipRoute()
 			interesting = true
-		case k < 88:
+		case k < 86:
 			w.closeDuringConnect(i, j)
+			interesting = true
+		case k < 90:
+			w.housekeepingDuring(i, j)
 			interesting = true
 		default:
 			w.closeSome()
